@@ -762,7 +762,7 @@ func (w *vkWorld) vkKeyPairs(rot int, q vkQuery, path []authsim.Query) {
 		key  authsim.Key
 		zone string
 	}
-	var keys, selfKeys, resigns []cand
+	var keys, selfKeys, resigns, cloneKeys, cloneResigns []cand
 	for pos, ex := range path {
 		z := w.u.HostedZone(ex.Server, ex.QName, ex.QType)
 		if z == nil {
@@ -779,6 +779,12 @@ func (w *vkWorld) vkKeyPairs(rot int, q vkQuery, path []authsim.Query) {
 		if vkKindByName("attacker-resign").Fn(ctx, honest.Copy()) {
 			resigns = append(resigns, cand{pos, ex.Key(), z.Apex})
 		}
+		if vkKindByName("attacker-ksk-clone-selfsigned").Fn(ctx, honest.Copy()) {
+			cloneKeys = append(cloneKeys, cand{pos, ex.Key(), z.Apex})
+		}
+		if vkKindByName("attacker-resign-kskclone").Fn(ctx, honest.Copy()) {
+			cloneResigns = append(cloneResigns, cand{pos, ex.Key(), z.Apex})
+		}
 	}
 	var scen []vkScenario
 	for _, k := range keys {
@@ -792,6 +798,13 @@ func (w *vkWorld) vkKeyPairs(rot int, q vkQuery, path []authsim.Query) {
 		for _, r := range resigns {
 			if k.zone == r.zone {
 				scen = append(scen, vkScenario{Rot: rot, Q: q, Tampers: []vkTamper{{Key: k.key, Kind: "attacker-key-selfsigned"}, {Key: r.key, Kind: "attacker-resign"}}})
+			}
+		}
+	}
+	for _, k := range cloneKeys {
+		for _, r := range cloneResigns {
+			if k.zone == r.zone {
+				scen = append(scen, vkScenario{Rot: rot, Q: q, Tampers: []vkTamper{{Key: k.key, Kind: "attacker-ksk-clone-selfsigned"}, {Key: r.key, Kind: "attacker-resign-kskclone"}}})
 			}
 		}
 	}
